@@ -165,11 +165,13 @@ impl DataStorage {
 
     /// Returns true if the revision is available and valid (digest matches)
     pub fn is_readable_and_valid_revision(&self, rev: &Revision) -> bool {
-        if self.committed_objects.contains_key(rev.digest()) {
-            true
-        } else {
-            matches!(self.read_object(rev), Ok(_obj))
-        }
+        // Only objects that are in storage count (or revisions that need no stored object):
+        // a body that is merely cached or staged here may be gone after a reopen
+        self.committed_objects.contains_key(rev.digest())
+            || rev.is_empty()
+            || rev.is_deleted()
+            || rev.is_resolved()
+            || rev.is_charcode()
     }
 
     /// Writes an object associating it with the given revision (digest)
